@@ -86,6 +86,11 @@ Proof. exact valid_mof_N. Qed.
 Theorem C29_decode_slots : forall it s, decode it = Some s -> slots_u64 s = true.
 Proof. intros it s. apply decode_slots. Qed.
 
+(* decoding dispatches on the type id as the CDDL says: the canonical
+   encoding of EVERY script the Go types can hold decodes to that script *)
+Theorem C29_decode_roundtrip : forall s, representable s = true -> decode (to_item s) = Some s.
+Proof. exact decode_to_item. Qed.
+
 (* the script hash is Blake2b-224 (H 1) of a zero byte followed by the
    original encoding of the decoded item, whatever header forms it uses *)
 Theorem C29_hash : forall (H : N -> bytes -> bytes) it s,
